@@ -517,3 +517,193 @@ Theorem ab_reduction_scaling (F : fieldType) (r n : nat) (A D : 'M[F]_n) (B : 'M
   A \in unitmx -> D \in unitmx -> (B *m D) *m invmx (A *m D) = B *m invmx A.
 Proof. exact: CalAlgebra.ab_scaling. Qed.
 Print Assumptions ab_reduction_scaling.
+
+(* ================================================================================================
+   Part 3 (session 5, package K): the leakage types from a physical model, and fill_* for every n.
+   (Stated after the mathcomp imports: Coq's own order relations and arithmetic on nat are written with
+   %coq_nat, membership with List.In.) *)
+Require LV.Cal.LeakPhysical LV.Cal.LeakPhysicalEx LV.Cal.EndToEndLeak LV.Cal.EndToEndLeakEx
+        LV.Cal.FillLoops LV.Cal.FillLoopsProofs LV.Cal.FillLoopsRecovers.
+Local Close Scope ring_scope.
+Import LV.Cal.LeakPhysical LV.Cal.LeakPhysicalEx LV.Cal.EndToEndLeak LV.Cal.EndToEndLeakEx
+       LV.Cal.FillLoops LV.Cal.FillLoopsProofs LV.Cal.FillLoopsRecovers.
+
+(* Block-diagonal argument, every number of ports n, every field, every equivalence `same' on the ports that the
+   standard S respects (S[i,j] = 0 between classes) and any error boxes that respect it (diagonal boxes respect
+   every partition): the response Mc of a well-posed T network,  Mc (Tx S + Tm) = Ts S + Ti  with one solution,
+   has no entry between different classes.  No inverse is formed. *)
+Theorem core_response_block_diagonal_T (K : CField) (n : nat) (same : nat -> nat -> bool) :
+  (forall i j, (i < n)%coq_nat -> (j < n)%coq_nat -> same i j = true -> same j i = true) ->
+  (forall i j k, (i < n)%coq_nat -> (j < n)%coq_nat -> (k < n)%coq_nat -> same i j = true -> same j k = true -> same i k = true) ->
+  forall S : nat -> nat -> K, bd K n same S ->
+  forall (Ts Ti Tx Tm : nat -> nat -> K) (mr : nat) (Mc : nat -> nat -> K),
+  bd K n same Ts -> bd K n same Ti -> bd K n same Tx -> bd K n same Tm -> (mr <= n)%coq_nat ->
+  left_kernel_trivial K n (NT K n S Tx Tm) -> physT K n S Ts Ti Tx Tm mr Mc ->
+  forall i k, (i < mr)%coq_nat -> (k < n)%coq_nat -> same i k = false -> Mc i k = @c0 K.
+Proof. exact (LeakPhysical.physT_offblock K n same). Qed.
+Print Assumptions core_response_block_diagonal_T.
+
+(* the same for a U network  (Um - S Ux) Mc = S Us - Ui *)
+Theorem core_response_block_diagonal_U (K : CField) (n : nat) (same : nat -> nat -> bool) :
+  (forall i j, (i < n)%coq_nat -> (j < n)%coq_nat -> same i j = true -> same j i = true) ->
+  (forall i j k, (i < n)%coq_nat -> (j < n)%coq_nat -> (k < n)%coq_nat -> same i j = true -> same j k = true -> same i k = true) ->
+  forall S : nat -> nat -> K, bd K n same S ->
+  forall (Um Ui Ux Us : nat -> nat -> K) (mc : nat) (Mc : nat -> nat -> K),
+  bd K n same Um -> bd K n same Ui -> bd K n same Ux -> bd K n same Us -> (mc <= n)%coq_nat ->
+  right_kernel_trivial K n (NU K n S Um Ux) -> physU K n S Um Ui Ux Us mc Mc ->
+  forall k j, (k < n)%coq_nat -> (j < mc)%coq_nat -> same k j = false -> Mc k j = @c0 K.
+Proof. exact (LeakPhysical.physU_offblock K n same). Qed.
+Print Assumptions core_response_block_diagonal_U.
+
+(* and for the per-column systems of UE14 / E12:  (Um_c - S Ux_c) Mc(:,c) = (S us_c - ui_c) e_c *)
+Theorem core_response_block_diagonal_UE14 (K : CField) (n : nat) (same : nat -> nat -> bool) :
+  (forall i, (i < n)%coq_nat -> same i i = true) ->
+  (forall i j, (i < n)%coq_nat -> (j < n)%coq_nat -> same i j = true -> same j i = true) ->
+  (forall i j k, (i < n)%coq_nat -> (j < n)%coq_nat -> (k < n)%coq_nat -> same i j = true -> same j k = true -> same i k = true) ->
+  forall S : nat -> nat -> K, bd K n same S ->
+  forall (um ux : nat -> nat -> K) (ui us : nat -> K) (mc : nat) (Mc : nat -> nat -> K), (mc <= n)%coq_nat ->
+  (forall c, (c < mc)%coq_nat -> right_kernel_trivial K n (N14 K S um ux c)) -> phys14 K n S um ux ui us mc Mc ->
+  forall k c, (k < n)%coq_nat -> (c < mc)%coq_nat -> same k c = false -> Mc k c = @c0 K.
+Proof. exact (LeakPhysical.phys14_offblock K n same). Qed.
+Print Assumptions core_response_block_diagonal_UE14.
+
+(* the physical equation IS the documented equation "= 0" (both directions, every cell) *)
+Theorem physical_T_iff_documented (K : CField) (n : nat) (S Ts Ti Tx Tm : nat -> nat -> K) (mr : nat) (Mc : nat -> nat -> K) :
+  physT K n S Ts Ti Tx Tm mr Mc <->
+  forall i j, (i < mr)%coq_nat -> (j < n)%coq_nat -> docT K n S Ts Ti Tx Tm Mc i j = @c0 K.
+Proof. exact (LeakPhysical.physT_iff_doc K n S Ts Ti Tx Tm mr Mc). Qed.
+Print Assumptions physical_T_iff_documented.
+
+Theorem physical_U_iff_documented (K : CField) (n : nat) (S Um Ui Ux Us : nat -> nat -> K) (mc : nat) (Mc : nat -> nat -> K) :
+  physU K n S Um Ui Ux Us mc Mc <->
+  forall i j, (i < n)%coq_nat -> (j < mc)%coq_nat -> docU K n S Um Ui Ux Us Mc i j = @c0 K.
+Proof. exact (LeakPhysical.physU_iff_doc K n S Um Ui Ux Us mc Mc). Qed.
+Print Assumptions physical_U_iff_documented.
+
+Theorem physical_UE14_iff_documented (K : CField) (n : nat) (S um ux : nat -> nat -> K) (ui us : nat -> K) (mc : nat) (Mc : nat -> nat -> K) :
+  phys14 K n S um ux ui us mc Mc <->
+  forall i c, (i < n)%coq_nat -> (c < mc)%coq_nat -> doc14 K n S um ux ui us Mc i c = @c0 K.
+Proof. exact (LeakPhysical.phys14_iff_doc K n S um ux ui us mc Mc). Qed.
+Print Assumptions physical_UE14_iff_documented.
+
+(* what the model of _vnacal_new_add_common records as connectivity matrix (inversion of the accepting path, all arguments) *)
+Theorem accepted_records_connectivity : forall a m, add_common a = Accepted m ->
+  ms_conn m = if is_16 (aa_ty a) then None
+              else Some (build_connectivity (Nat.max (aa_mr a) (aa_mc a)) (ms_s m)).
+Proof. exact LeakPhysical.accepted_conn_built_lemma. Qed.
+Print Assumptions accepted_records_connectivity.
+
+(* TE10, all dimensions rows <= columns, every field in which sample counts are invertible, every list of standards
+   (any S cells: parameters, known zeros, cells not given with ANY value fxof), connectivity matrix as computed by
+   the model of build_connectivity_matrix: if every standard is measured by one well-posed T8 core network (error
+   terms fe, unity term 1) plus additive leakage El off the diagonal, then (leak_conclusion)
+     - every cell the solver samples measures El exactly,
+     - every leakage mean is El (for every number of samples >= 1),
+     - if every off-diagonal cell has a sample or no leakage: the saved leakage terms are El, the corrected values
+       m_adjusted are the core response, and the documented T8 expression with M' = m_adjusted vanishes in EVERY cell. *)
+Theorem leak_physical_TE10 (K : CField) (mr mc : nat) (fe : nat -> K) (el : nat -> nat -> K) (pv : Z -> K)
+        (ms : list (mvals (ops_of K))) (fxof : mvals (ops_of K) -> nat -> K) (core : mvals (ops_of K) -> nat -> nat -> K) :
+  (forall k : nat, k <> O -> onat (ops_of K) k <> @c0 K) -> (mr <= mc)%coq_nat ->
+  (forall mv, List.In mv ms -> conn_built K mr mc mv /\ te_network K mr mc fe pv fxof core mv /\ measured_with_leakage K mr mc el core mv) ->
+  leak_conclusion K mr mc fe el pv ms fxof core TE10.
+Proof. exact (LeakPhysical.leak_TE10_lemma K mr mc fe el pv ms fxof core). Qed.
+Print Assumptions leak_physical_TE10.
+
+Theorem leak_physical_UE10 (K : CField) (mr mc : nat) (fe : nat -> K) (el : nat -> nat -> K) (pv : Z -> K)
+        (ms : list (mvals (ops_of K))) (fxof : mvals (ops_of K) -> nat -> K) (core : mvals (ops_of K) -> nat -> nat -> K) :
+  (forall k : nat, k <> O -> onat (ops_of K) k <> @c0 K) -> (mc <= mr)%coq_nat ->
+  (forall mv, List.In mv ms -> conn_built K mr mc mv /\ ue_network K mr mc fe pv fxof core mv /\ measured_with_leakage K mr mc el core mv) ->
+  leak_conclusion K mr mc fe el pv ms fxof core UE10.
+Proof. exact (LeakPhysical.leak_UE10_lemma K mr mc fe el pv ms fxof core). Qed.
+Print Assumptions leak_physical_UE10.
+
+(* UE14 and E12 (which is measured and solved as E12_UE14) *)
+Theorem leak_physical_UE14_E12 (K : CField) (mr mc : nat) (fe : nat -> K) (el : nat -> nat -> K) (pv : Z -> K)
+        (ms : list (mvals (ops_of K))) (fxof : mvals (ops_of K) -> nat -> K) (core : mvals (ops_of K) -> nat -> nat -> K) :
+  (forall k : nat, k <> O -> onat (ops_of K) k <> @c0 K) -> forall ty : caltype, ty = UE14 \/ ty = E12_UE14 -> (mc <= mr)%coq_nat ->
+  (forall mv, List.In mv ms -> conn_built K mr mc mv /\ c14_network K mr mc fe pv fxof core ty mv /\ measured_with_leakage K mr mc el core mv) ->
+  leak_conclusion K mr mc fe el pv ms fxof core ty.
+Proof. exact (LeakPhysical.leak_UE14_lemma K mr mc fe el pv ms fxof core). Qed.
+Print Assumptions leak_physical_UE14_E12.
+
+(* the hypotheses are met (2 x 2 TE10 at Q[i], two double reflects entered through add_common, El12 = 1/4 + i/8,
+   El21 = 1/3; both cells sampled; the saved terms computed by the theorem) *)
+Theorem leak_physical_TE10_nonvacuous :
+  (forall mv, List.In mv lx_ms ->
+     conn_built QIF 2 2 mv /\ te_network QIF 2 2 lx_fe lx_pv lx_fx lx_core mv /\
+     measured_with_leakage QIF 2 2 lx_el lx_core mv) /\
+  covered QIF 2 2 lx_el lx_ms /\
+  (forall r c, (r < 2)%coq_nat -> (c < 2)%coq_nat -> r <> c -> exists mv, List.In mv lx_ms /\ sampled QIF 2 2 mv r c = true) /\
+  leak_terms (ops_of QIF) TE10 2 2 lx_ms = (mkqi 1 4 1 8 :: mkqi 1 3 0 1 :: nil)%list /\
+  length (ms_eqs (lx_meas 3 4)) = 2%nat.
+Proof. exact LeakPhysicalEx.leak_TE10_nonvacuous. Qed.
+Print Assumptions leak_physical_TE10_nonvacuous.
+
+(* PARTIAL (bound in the statement: standards of the family zcfgs = dims 1..3, every port set, its known-zero masks;
+   the residual form row_res, not yet the rdot form of c01_model_end_to_end_partial): the calibration hypothesis of the
+   composition derived from the physical hypothesis.  Every list of such standards measured by one network of the
+   type: every row of every assembled system is satisfied by the true terms, and the saved leakage terms are El. *)
+Theorem c01_leak_rows_satisfied_partial (K : CField) (mr mc : nat) (fe : nat -> K) (el : nat -> nat -> K) (pv : Z -> K)
+        (ms : list (mvals (ops_of K))) (fxof : mvals (ops_of K) -> nat -> K) (core : mvals (ops_of K) -> nat -> nat -> K) :
+  (forall k : nat, k <> O -> onat (ops_of K) k <> @c0 K) ->
+  forall ty, List.In ty (TE10 :: UE10 :: UE14 :: E12_UE14 :: nil)%list ->
+  (forall mv, List.In mv ms -> std_of K ty mr mc mv /\ network_of K mr mc fe pv fxof core ty mv /\ measured_with_leakage K mr mc el core mv) ->
+  covered K mr mc el ms ->
+  leak_terms (ops_of K) ty mr mc ms = List.map (fun rc => el (fst rc) (snd rc)) (offdiag_cells mr mc) /\
+  forall sys, (sys < systems_of ty mc)%coq_nat ->
+    forall row, List.In row (assemble (ops_of K) ty mr mc pv ms sys) -> row_res K ty mr mc fe sys row = @c0 K.
+Proof. exact (EndToEndLeak.leak_rows_satisfied_lemma K mr mc fe el pv ms fxof core). Qed.
+Print Assumptions c01_leak_rows_satisfied_partial.
+
+Theorem c01_leak_rows_satisfied_nonvacuous :
+  (forall mv, List.In mv ly_ms ->
+     std_of QIF TE10 2 2 mv /\ network_of QIF 2 2 lx_fe ly_pv lx_fx lx_core TE10 mv /\
+     measured_with_leakage QIF 2 2 lx_el lx_core mv) /\
+  covered QIF 2 2 lx_el ly_ms /\
+  length (assemble (ops_of QIF) TE10 2 2 ly_pv ly_ms 0) = 3%nat /\
+  leak_terms (ops_of QIF) TE10 2 2 ly_ms = (mkqi 1 4 1 8 :: mkqi 1 3 0 1 :: nil)%list /\
+  forall row, List.In row (assemble (ops_of QIF) TE10 2 2 ly_pv ly_ms 0) -> row_res QIF TE10 2 2 lx_fe 0 row = @c0 QIF.
+Proof. exact EndToEndLeakEx.leak_rows_satisfied_nonvacuous. Qed.
+Print Assumptions c01_leak_rows_satisfied_nonvacuous.
+
+(* fill_t8 / fill_u8 / fill_t16 / fill_u16 / fill_ue14 / fill_e12 written as the C loops (nested folds with in-place
+   updates of a and b, the leakage pointer el_cur as a counter; Cal/FillLoops.v) compute what the closed-form model
+   Cal/ApplyModel.v computes -- the model the exact tie 5 compares with the compiled functions -- for EVERY square
+   dimension n, every value type, all arrays. *)
+Theorem loop_fill_eq_model (O : Ops) (ty : caltype) (n : nat) (e m : list O) :
+  apply_fill O ty n n e m = (let '(m', a, b) := loop_apply_fill O ty n e m in Filled m' a b).
+Proof. exact (FillLoopsProofs.loop_fill_eq_model O ty n e m). Qed.
+Print Assumptions loop_fill_eq_model.
+
+(* fill_solves without its bound: EVERY n, every field, all e, m, s: the filled (A, B) satisfy
+   (A S - B)[i,j] = - doc[i,j] (T) resp. (S A - B)[i,j] = - doc[i,j] (U, UE14, E12), doc the documented expression. *)
+Theorem fill_solves_every_n (K : CField) (ty : caltype) (n : nat) (e m s : list K) :
+  List.In ty stored_types -> (1 <= n)%coq_nat -> length m = (n * n)%coq_nat ->
+  exists m' a b, apply_fill (ops_of K) ty n n e m = Filled m' a b /\
+    forall i j, (i < n)%coq_nat -> (j < n)%coq_nat ->
+      csub (prod_cell K ty n n a s i j) (g (ops_of K) b (i * n + j)%coq_nat) = copp (doc_cell K ty n n e m s i j).
+Proof. exact (FillLoopsProofs.fill_solves_every_n K ty n e m s). Qed.
+Print Assumptions fill_solves_every_n.
+
+Theorem loop_fill_solves_every_n (K : CField) (ty : caltype) (n : nat) (e m s : list K) :
+  List.In ty stored_types -> (1 <= n)%coq_nat -> length m = (n * n)%coq_nat ->
+  let '(m', a, b) := loop_apply_fill (ops_of K) ty n e m in
+  forall i j, (i < n)%coq_nat -> (j < n)%coq_nat ->
+    csub (prod_cell K ty n n a s i j) (g (ops_of K) b (i * n + j)%coq_nat) = copp (doc_cell K ty n n e m s i j).
+Proof. exact (FillLoopsProofs.loop_fill_solves_every_n K ty n e m s). Qed.
+Print Assumptions loop_fill_solves_every_n.
+
+(* apply_model_recovers_S without its bound: every square dimension n *)
+Theorem apply_model_recovers_S_every_n (ty : caltype) (n : nat) (e m s : list qi) :
+  List.In ty stored_types -> (1 <= n)%coq_nat -> length m = (n * n)%coq_nat -> length s = (n * n)%coq_nat ->
+  (forall i j, (i < n)%coq_nat -> (j < n)%coq_nat -> doc_cell QIF ty n n e m s i j = @c0 QIF) ->
+  forall a b x, q_apply ty n n e m = AOk a b x -> x = s.
+Proof. exact (FillLoopsRecovers.apply_model_recovers_S_every_n ty n e m s). Qed.
+Print Assumptions apply_model_recovers_S_every_n.
+
+(* beyond the old bound: T8 5 x 5 *)
+Theorem apply_model_recovers_S_n5_nonvacuous :
+  (forall i j, (i < 5)%coq_nat -> (j < 5)%coq_nat -> doc_cell QIF T8 5 5 kf_e5 kf_s5 kf_s5 i j = @c0 QIF) /\
+  exists a b, q_apply T8 5 5 kf_e5 kf_s5 = AOk a b kf_s5.
+Proof. exact FillLoopsRecovers.apply_model_recovers_S_n5_nonvacuous. Qed.
+Print Assumptions apply_model_recovers_S_n5_nonvacuous.
